@@ -89,6 +89,40 @@ def partial_reoffer_rule(ctx: Ctx, rid: str):
 
 
 
+def marker_never_offered_rule(ctx: Ctx, rid: str):
+    """available(): every positive answer is reached only under the fact that the slot-table entry is not a blocking marker
+    (an int: off-shift / leave); markers are not "partly released bookings" (C02 R02.9 / C01 R01.7)."""
+    avail = ctx.repo.func("ResourceScenario.available")
+    g = cfg_of(avail)
+    fa = facts_of(avail)
+    n = 0
+    for r in returns(avail):
+        if not (isinstance(r.value, ast.Constant) and r.value.value is True):
+            continue
+        n += 1
+        node = g.node_of(r)
+
+        def not_marker(t, p):
+            t_ = t.replace(" ", "")
+            if "scoreboard[" not in t_:
+                return False
+            if t_.startswith("isinstance(") and t_.endswith(",int)"):
+                return not p
+            if t_.startswith("isinstance(") and t_.endswith(",Task)"):
+                return p
+            return (t_.endswith("isNone") and p)
+        cl = fa.holds(node, not_marker)
+        # either the entry is known not to be an int marker, or it is a Task / None on every path
+        ok = cl is not None
+        ctx.ob(rid, f"{avail.qual}: return True only for an entry that is not a blocking marker", (avail, r), ok,
+               f"fact on every path: {sorted(cl)}" if ok else
+               "available() can answer True for a slot whose table entry is an off-shift / leave marker (it only needs `remaining < slot "
+               "length`, which the start-offset reservation of bookResource establishes): a task is booked inside a leave",
+               key=key_of(rid, avail, None, "marker never offered"))
+    if not n:
+        raise AnchorMissing("available(): no `return True`")
+
+
 def raise_only_write(fn, node, val) -> bool:
     """The ledger write at cfg node is guarded exactly by `<ledger read> < <written value>`."""
     ffacts = facts_of(fn)
